@@ -251,20 +251,33 @@ func c10Check(c c10cfg, o c10out) (kind, msg string) {
 			maxRound = k
 		}
 	}
-	success := true
-	var doneAt time.Duration
-	if len(missing) > 0 {
-		doneAt = roundTime(maxRound)
-		if forever || doneAt >= deadline {
-			success = false
-		}
+	// The property fixes no exact retry schedule, only "pausing at most a few seconds between rounds";
+	// the oracle therefore brackets the outcome instead of demanding the reference schedule:
+	//   slow  = latest instant by which every secret has been obtained if each pause is at most maxPause
+	//   an error is only legitimate once the context has ended, and must then come promptly;
+	//   a success must come with the right values and, if everything is obtainable before the context
+	//   ends even with the longest allowed pauses, an error is not acceptable.
+	const maxPause = 5 * time.Second
+	slow := time.Duration(maxRound) * maxPause
+	mustSucceed := len(missing) == 0 || (!forever && slow < deadline)
+	mustFail := len(missing) > 0 && forever
+	success := o.err == nil
+	doneAt := roundTime(maxRound)
+	if mustSucceed && !success {
+		return "spurious-failure", fmt.Sprintf("NewStore failed (%v) although every declared secret was obtainable well before the context ended at %v (reference schedule: %v)", o.err, deadline, doneAt)
+	}
+	if mustFail && success && !c.ignoreCtx {
+		return "spurious-success", fmt.Sprintf("NewStore succeeded although a declared secret could never be obtained (context ends at %v)", deadline)
 	}
 	if success {
-		if o.err != nil {
-			return "spurious-failure", fmt.Sprintf("NewStore failed (%v) although every declared secret was obtainable by %v (context ends at %v)", o.err, doneAt, deadline)
+		if len(missing) == 0 && o.elapsed != 0 {
+			return "return-time", fmt.Sprintf("NewStore needed %v although nothing had to be fetched", o.elapsed)
 		}
-		if o.elapsed != doneAt {
-			return "return-time", fmt.Sprintf("NewStore returned after %v, the model says all secrets were obtained at %v", o.elapsed, doneAt)
+		if o.elapsed > slow && len(missing) > 0 {
+			return "return-time", fmt.Sprintf("NewStore returned after %v; with pauses of at most %v all secrets are obtained by %v", o.elapsed, maxPause, slow)
+		}
+		if o.elapsed > deadline {
+			return "not-prompt", fmt.Sprintf("NewStore returned after %v; the context ended at %v", o.elapsed, deadline)
 		}
 		for _, n := range all {
 			want := Value(n, 2)
@@ -293,23 +306,11 @@ func c10Check(c c10cfg, o c10out) (kind, msg string) {
 			}
 		}
 	} else {
-		if o.err == nil && !c.ignoreCtx {
-			return "spurious-success", fmt.Sprintf("NewStore succeeded although not every declared secret could be obtained before the context ended at %v", deadline)
+		if o.elapsed < deadline {
+			return "gave-up-early", fmt.Sprintf("NewStore gave up after %v (%v) while the caller's context was still live (it ends at %v)", o.elapsed, o.err, deadline)
 		}
-		if o.err == nil {
-			// a service that keeps answering after the caller's context ended may still complete the set at that instant
-			for _, n := range all {
-				want := Value(n, 2)
-				if v, ok := cached[n]; ok {
-					want = Value(n, v)
-				}
-				if o.values[n] != want {
-					return "value", fmt.Sprintf("Secret(%q) = %q, want %q", n, o.values[n], want)
-				}
-			}
-		}
-		if o.elapsed != deadline {
-			return "not-prompt", fmt.Sprintf("NewStore gave up after %v; the context ended at %v", o.elapsed, deadline)
+		if o.elapsed > deadline+maxPause {
+			return "not-prompt", fmt.Sprintf("NewStore gave up only after %v; the context ended at %v", o.elapsed, deadline)
 		}
 	}
 	// request discipline
@@ -325,17 +326,12 @@ func c10Check(c c10cfg, o c10out) (kind, msg string) {
 		if k >= 0 && len(calls) > k+1 {
 			return "refetched", fmt.Sprintf("%q was obtained at its request %d but requested %d times", n, k+1, len(calls))
 		}
-		if success && k >= 0 && len(calls) != k+1 {
+		if success && k >= 0 && len(calls) != k+1 && !c.ignoreCtx {
 			return "request-count", fmt.Sprintf("%q: %d requests, want %d", n, len(calls), k+1)
 		}
 		for i := 1; i < len(calls); i++ {
-			if gap := calls[i] - calls[i-1]; gap > 4096*time.Millisecond {
+			if gap := calls[i] - calls[i-1]; gap > maxPause {
 				return "backoff-cap", fmt.Sprintf("%q: %v between consecutive attempts (at %v and %v)", n, gap, calls[i-1], calls[i])
-			}
-		}
-		for i, at := range calls {
-			if at != roundTime(i) && !(c.ctx != "none" && at == deadline) && !(c.ctx == "none" && at == 60*time.Second) {
-				return "round-time", fmt.Sprintf("%q: attempt %d at %v, the model says %v", n, i, at, roundTime(i))
 			}
 		}
 	}
